@@ -137,7 +137,49 @@ def run_api(kw):
             "params": {k: typed(v) for k, v in ret.items()}}, p
 
 
-def oracle(kw, real):
+def gen_options(r, kw):
+    """a well-formed options section (native values, as YAML hands them over), sometimes on the names the caller passes"""
+    types = param_types()
+    names = [n for n in types if n != "neutral_value"]
+    chosen = set(r.sample(names, r.randint(0, 3)))
+    for n, _ in kw:
+        if n in types and n != "neutral_value" and r.random() < 0.6:
+            chosen.add(n)
+    opts = {}
+    for n in sorted(chosen):
+        cur = types[n]
+        if isinstance(cur, bool):
+            opts[n] = not cur if r.random() < 0.7 else cur
+        elif isinstance(cur, int):
+            opts[n] = r.choice([cur + 3, 7, 1])
+        elif isinstance(cur, float):
+            opts[n] = r.choice([cur + 0.5, 0.75, 2.0])
+        else:
+            opts[n] = "sr"
+    return opts if (opts or r.random() < 0.5) else None
+
+
+def run_load(g, opts, kw, path):
+    """the programming-interface route of genotype(): Profile.load(gene, profile file, **params)"""
+    import yaml
+    from aldy.common import AldyException
+    from aldy.profile import Profile
+    doc = {"neutral": {"hg19": ["1", 100, 200], "value": 1234.0}, g.name: {}}
+    if opts is not None:
+        doc["options"] = opts
+    with open(path, "w") as f:
+        yaml.safe_dump(doc, f)
+    try:
+        p = Profile.load(g, path, None, **dict(kw))
+    except AldyException as e:
+        msg = str(e)
+        return {"invalid": msg.split("Invalid parameter ")[1].split(":")[0] if "Invalid parameter " in msg else "?" + msg[:80]}
+    except Exception as e:
+        return {"raises": f"{type(e).__name__}: {e}"}
+    return {"values": {k: typed(v) for k, v in p.__dict__.items() if k not in ("name", "cn_region", "data", "cn_solution")}}
+
+
+def oracle(kw, real, baseline=None):
     """property clauses, independent of the model"""
     why = []
     types = param_types()
@@ -149,7 +191,7 @@ def oracle(kw, real):
     if nme not in types:
         if "invalid" in real:
             why.append(f"unknown parameter name {nme!r} is not ignored (error raised)")
-        elif any(not same(real["values"][k], typed(types[k])) for k in types):
+        elif any(not same(real["values"][k], (baseline or {}).get(k, typed(types[k]))) for k in types):
             why.append(f"unknown parameter name {nme!r} changed a parameter")
         return why
     cur = types[nme]
@@ -248,6 +290,20 @@ def tie(ctx):
         real, _ = run_api(kw)
         reals.append(real)
         reqs.append({"op": "params_update", "kwargs": [[n, wire(v)] for n, v in kw]})
+    # Profile.load(gene, file with an options section, **explicit parameters)
+    import views
+    g_load = views.shipped_gene("tpmt", "hg19")
+    loads = []
+    with tempfile.TemporaryDirectory() as td:
+        lpath = os.path.join(td, "p.yml")
+        for kw in cases:
+            if any(n in ("gene", "profile", "cn_region") for n, _ in kw):
+                continue
+            opts = gen_options(r, kw)
+            base = run_load(g_load, opts, [], lpath).get("values") if (len(kw) == 1 and kw[0][0] not in param_types()) else None
+            loads.append((kw, opts, run_load(g_load, opts, kw, lpath), base))
+    load_reqs = [{"op": "params_load", "options": [[n, wire(v)] for n, v in (opts or {}).items()], "kwargs": [[n, wire(v)] for n, v in kw],
+                  "neutral": wire(1234.0)} for kw, opts, _, _ in loads]
     # CLI + options round trip
     cli = []
     types = param_types()
@@ -302,8 +358,10 @@ def tie(ctx):
                 break
             reqs.append({"op": "split_param", "p": t})
         reqs.append({"op": "params_update", "kwargs": [[t.split("=", 1)[0].replace("-", "_"), wire(t.split("=", 1)[1])] for t in toks if "=" in t]})
-    outs = lib.driver_batch(reqs)
-    fam = {k: {"cases": 0, "disagreements": []} for k in ("param_table", "update_api", "cli_profile")}
+    outs = lib.driver_batch(reqs + load_reqs)
+    load_outs = outs[len(reqs):]
+    outs = outs[:len(reqs)]
+    fam = {k: {"cases": 0, "disagreements": []} for k in ("param_table", "update_api", "cli_profile", "load_api")}
     violations = []
     stats = collections.Counter()
     # table
@@ -337,6 +395,24 @@ def tie(ctx):
             stats["type_" + type(v).__name__] += 1
         if len(samples) < 4 and len(kw) > 1:
             samples.append({"kwargs": inp["kwargs"], "result": str(real)[:200]})
+    for (kw, opts, real, base), o in zip(loads, load_outs):
+        fam["load_api"]["cases"] += 1
+        inp = {"kwargs": [[n, v] for n, v in kw], "options": opts, "route": "Profile.load"}
+        stats["load_with_options_on_given_name"] += any(n in (opts or {}) for n, _ in kw)
+        if "raises" in real:
+            violations.append({"why": f"Profile.load with explicit parameters raises {real['raises']}", "input": inp, "signature": "c18:load_raises"})
+            continue
+        if "invalid" in real or "invalid" in o:
+            agree = ("invalid" in real) and ("invalid" in o) and real["invalid"] == o["invalid"]
+        else:
+            mv = {n: unwire(v) for n, v in o["values"]}
+            agree = all(same(real["values"][k2], mv[k2]) for k2 in real["values"])
+        if not agree:
+            diff = "" if ("invalid" in real or "invalid" in o) else str([(k2, real["values"][k2], mv[k2]) for k2 in real["values"] if not same(real["values"][k2], mv[k2])][:2])
+            fam["load_api"]["disagreements"].append({"why": f"Profile.load(**params) differs from the model: {real.get('invalid', '')} {o.get('invalid', '')} {diff}", "input": inp})
+        why = oracle(kw, real, base)
+        if why:
+            violations.append({"why": "Profile.load route: " + why[0], "input": inp, "observed": str(real)[:300], "signature": "c18:load:" + why[0].split(" ")[0] + ":" + why[0].split(" ")[1]})
     k = 1 + len(cases)
     for toks, (doc, err, loaded, lerr) in zip(cli, cli_real):
         fam["cli_profile"]["cases"] += 1
